@@ -124,9 +124,9 @@ def check_design(ctx, g, cls, k, cycles, nsimple, nforced, ffl, coq_cases, coq_m
             ctx.violation(f'C01:frame:{g.name}:{b.__name__}', f'block {b.__name__} of {g.name} changed bits of {sname} outside its declared write set (footprint analysis unsound)',
                           {'design_source': src, 'block': b.__name__, 'signal': sname, 'changed_mask': hex(diff), 'declared_mask': hex(allowed)})
     # dep: flip a bit that one block neither reads nor writes; what it writes must not change
-    b = rng.choice(fpl.comb)
+    b = rng.choice(fpl.comb) if fpl.comb else None
     cand = [q for q in fpl.roots if hasattr(sc_live(top, q), '_uint')]
-    if cand:
+    if cand and b is not None:
       q = rng.choice(cand); rid = fpl.roots[q]; W = sc.width_of(q); bit = rng.randrange(W)
       touched = any(rr in alias_of[rid] and lo <= bit < hi for (rr, lo, hi) in fpl.reads[b] + fpl.writes[b])
       if not touched:
